@@ -49,6 +49,7 @@ def fis_obj(ident, name):
 class introspect_fun(FnSpec):
     file, qualname = "dds/introspect.py", "_introspect_fun"
     may_raise = True
+    ARG = "f"
 
     def __init__(self):
         super().__init__()
@@ -187,7 +188,7 @@ class introspect_fun(FnSpec):
         }
 
     def key_path(self, ctx):
-        f = ctx.args["f"].term
+        f = ctx.args[self.ARG].term
         fp = FUNPATH(f)
         return z3.If(IS_LAMBDA(f), WITH_STEM(fp, z3.Concat(STEM(fp), HASH(SRC(f)))), fp)
 
@@ -195,7 +196,7 @@ class introspect_fun(FnSpec):
         r = ctx.result
         if not (isinstance(r, ObjVal) and r.cls == "FunctionInteractions"):
             return [("result_is_an_analysis", False)]
-        f = ctx.args["f"].term
+        f = ctx.args[self.ARG].term
         ak = AKEY.const("arg_ctx_key").term
         kp = self.key_path(ctx)
         old = ctx.old["gctx"].fields["cached_fun_interactions"]
@@ -234,7 +235,7 @@ class introspect_fun(FnSpec):
 
     def signals(self, ctx):
         e = ctx.exc
-        f = ctx.args["f"].term
+        f = ctx.args[self.ARG].term
         out = [("only_coded_dds_errors", e.cls is DS.DDSException)]
         if e.code == DS.DDSErrorCode.MODULE_NOT_FOUND:
             out.append(("module_not_found_only_without_module", DEFMOD_NONE(f)))
